@@ -260,7 +260,7 @@ def _evidence(pid, tier, seed, cfg, verdicts, bounded, nviol, wall, note='', sel
         trusted_base=TRUSTED_BASE,
         functions_under_contract=fns,
         backends=backends,
-        obligation_list=[v.as_dict() for v in obligations][:400],
+        obligation_list=[v.as_dict() for v in sorted(obligations, key=lambda v: (v.status == 'discharged', v.kind != 'ensures'))][:1200],   # postconditions first
         source_sha256=_all_hashes(),
         explanation=cfg.EXPLANATION + (' NOTE: ' + note if note else ''),
         assumed_contracts=_claims('ASSUMED', pid),
